@@ -293,7 +293,7 @@ def tamper_plan(sc, sim, tbs) -> list:
             plan.append(("XF", name))
         elif kind == "dir" and free:
             plan.append(("XD", free[seed % len(free)]))
-    return plan
+    return list(dict.fromkeys(plan))
 
 
 def _line(sc) -> str:
